@@ -8,6 +8,7 @@ import Bip39V.Model.Tool
 import Bip39V.Spec.Bip39
 import Bip39V.Crypto.Sha
 import Bip39V.Crypto.Sha256Spec
+import Bip39V.Crypto.Pbkdf2Spec
 /-! `bip39model`: one operation per input line, one answer per output line — the executable
 definitions of the Lean model (M) and of the specification (S) behind a line protocol. -/
 open Bip39V
@@ -160,6 +161,10 @@ def answer (line : String) : String :=
   | ["pbkdf2", hp, hs, it, n] =>
     match unhex hp, unhex hs, it.toNat?, n.toNat? with
     | some p, some s, some it, some n => s!"M ok {hexOf (PB p s it n)}\tS -"
+    | _, _, _, _ => "bad-op"
+  | ["pbkdf2spec", hp, hs, it, n] =>   -- the pure functional PBKDF2 of the theorems (M) and the fast one (S)
+    match unhex hp, unhex hs, it.toNat?, n.toNat? with
+    | some p, some s, some it, some n => s!"M ok {hexOf (Crypto.S512.pbkdf2 p s it n)}\tS ok {hexOf (PB p s it n)}"
     | _, _, _, _ => "bad-op"
   | ["word", l, i] =>     -- the i-th word of the model's list() and of the canonical list
     match l.toInt?, i.toNat? with
